@@ -16,6 +16,13 @@ VERIF = os.path.dirname(os.path.dirname(os.path.abspath(__file__)))
 PROP = 'C09'
 
 
+def _lemma_status():
+    try:
+        return open(os.path.join(VERIF, '.venv', 'lemmas_checked')).read().strip()
+    except OSError:
+        return 'not checked in this set-up'
+
+
 def kernel_table():
     t = []
     for op in ('add', 'sub', 'mul', 'truediv'):
@@ -229,5 +236,6 @@ def run(prop, tier, jobs, seed):
            'samples': samples,
            'solver_time_U_s': round(sum(r.get('solver_s', 0) for r in res), 2),
            'trusted_base': ['VCG engine (engine/vcg): AST->z3 encoding of dict/set/array/loops (pointwise summaries)',
-                            'lemma schema: card monotone under inclusion; nonempty(dom) <=> exists k. dom[k] (Skolem + ground instances)']}
+                            'lemma schema: card monotone under inclusion; nonempty(dom) <=> exists k. dom[k] (Skolem + ground instances)',
+                            'lemma schema F0-F2 (card of a key set inside range(size): <= size, = size -> full, < size -> a hole), lemmas/FinsetCard.lean: ' + _lemma_status()]}
     return {'status': status, 'coverage': cov, 'baseline': newbase, 'violations': viol, 'wall_s': time.time() - t0}
